@@ -19,6 +19,7 @@ import PMH.Model.ChaCha
 import PMH.Model.DensMinHash
 import PMH.Model.OrdMinHash
 import PMH.Model.JaccardBounds
+import PMH.Model.Hashers
 import PMH.Model.JaccardBoundsGen
 import PMH.Model.Exp01Gen
 import Std.Data.HashMap
@@ -114,7 +115,37 @@ def iterE {α β : Type} (f : α → Except Err (β × α)) : Nat → α → Exc
       | .error e => .error e
     | .error e => .error e
 
-def u64OfHex (s : String) : Option UInt64 := (parseHex s).map (·.toUInt64)
+/-- a 64-bit word: hexadecimal, or `fnv:<decimal id>` = the hash `BuildHasherDefault<FnvHasher>` gives the `u64`/`usize`
+item `id` (computed by the model of the hasher, `Hashers.fnvU64`) -/
+def u64OfHex (s : String) : Option UInt64 :=
+  if s.startsWith "fnv:" then (s.drop 4).toString.toNat?.map (fun n => Hashers.fnvU64 n.toUInt64)
+  else (parseHex s).map (·.toUInt64)
+
+def bytesOfHexStr (s : String) : Option ByteArray :=
+  let cs := s.toList
+  if cs.length % 2 ≠ 0 then none else
+  let rec go : List Char → List UInt8 → Option (List UInt8)
+    | a :: b :: rest, acc => match hexDigit a, hexDigit b with
+      | some x, some y => go rest ((x * 16 + y).toUInt8 :: acc)
+      | _, _ => none
+    | _, acc => some acc.reverse
+  (go cs []).map Hashers.ofList
+
+/-- the external hash functions, as modelled in `Model/Hashers.lean`, against the crates -/
+def stepHash : List String → String
+  | ["fnv64", x] => match x.toNat? with | some n => u64Hex (Hashers.fnvU64 n.toUInt64) | none => "bad-op"
+  | ["fnv32", x] => match x.toNat? with | some n => u64Hex (Hashers.fnvU32 n.toUInt32) | none => "bad-op"
+  | ["fnvbytes", h] => match bytesOfHexStr (if h == "-" then "" else h) with | some b => u64Hex (Hashers.fnv1a b) | none => "bad-op"
+  | ["murmur", x] => match parseHex x with | some n => toHexW 8 (Hashers.murmurOfU64 n.toUInt64).toNat | none => "bad-op"
+  | ["murmurbytes", sd, h] => match sd.toNat?, bytesOfHexStr (if h == "-" then "" else h) with
+    | some sd, some b => toHexW 8 (Hashers.murmur3_32 b sd.toUInt32).toNat | _, _ => "bad-op"
+  | ["sha", h] => match bytesOfHexStr (if h == "-" then "" else h) with
+    | some b => let (a, b', c, d) := Hashers.shaSeedWords b; joinSp [u64Hex a, u64Hex b', u64Hex c, u64Hex d]
+    | none => "bad-op"
+  | "wy" :: sd :: xs => match parseHex sd, xs.mapM parseHex with
+    | some sd, some l => u64Hex (Hashers.wyCombine sd.toUInt64 (l.map (·.toUInt64)))
+    | _, _ => "bad-op"
+  | _ => "bad-op"
 
 def stepXo : List String → String
   | ["seed", s, n] => match u64OfHex s, n.toNat? with
@@ -264,8 +295,28 @@ def pmh2Src : Src2 Float Xo := { nextE := exp1, nextU := fun g => .ok g.next }
 /-- item token `id:whex:seedhex` (seed_from_u64) or `id:whex:a:b:c:d` (from_seed words) -/
 def parseItem (t : String) : Option (Nat × Float × Xo) :=
   match t.splitOn ":" with
+  | [id, w, "fnv"] => match id.toNat?, f64OfHex w with      -- seed = FNV-1a hash of the u64 id (model of the hasher)
+    | some id, some w => some (id, w, Xo.seedFromU64 (Hashers.fnvU64 id.toUInt64))
+    | _, _ => none
+  | [id, w, "sha"] => match id.toNat?, f64OfHex w with      -- seed = Sha512_256 of the id's byte identity (Sig for u64)
+    | some id, some w =>
+      let (a, b, c, d) := Hashers.shaSeedWords (Hashers.ofList ((Sig.sigU64 id).map (·.toUInt8)))
+      some (id, w, Xo.fromWords a b c d)
+    | _, _ => none
   | [id, w, sd] => match id.toNat?, f64OfHex w, u64OfHex sd with
     | some id, some w, some sd => some (id, w, Xo.seedFromU64 sd)
+    | _, _, _ => none
+  -- `id:w:shav8|shav16|shav32:<elements as decimal, comma separated, or ->` : the key is a `Vec<u8|u16|u32>` (or the UTF-8 bytes of a
+  -- String, given as shav8); the model computes its byte identity (Model/Sig.lean), Sha512_256 and the generator seed
+  | [id, w, kind, elems] =>
+    let xs : Option (List Nat) := if elems == "-" then some [] else (elems.splitOn ",").mapM (·.toNat?)
+    match id.toNat?, f64OfHex w, xs with
+    | some id, some w, some xs =>
+      let bytes : Option (List Nat) := match kind with
+        | "shav8" => some (Sig.sigVecU8 xs) | "shav16" => some (Sig.sigVecU16 xs) | "shav32" => some (Sig.sigVecU32 xs) | _ => none
+      (match bytes with
+       | some bs => let (a, b, c, d) := Hashers.shaSeedWords (Hashers.ofList (bs.map (·.toUInt8))); some (id, w, Xo.fromWords a b c d)
+       | none => none)
     | _, _, _ => none
   | [id, w, a, b, c, d] => match id.toNat?, f64OfHex w, u64OfHex a, u64OfHex b, u64OfHex c, u64OfHex d with
     | some id, some w, some a, some b, some c, some d => some (id, w, Xo.fromWords a b c d)
@@ -346,6 +397,28 @@ def stepExp : List String → String
     | _, _ => "bad-op"
   | ["exp01c", l] => match f64OfHex l with
     | some l => let e := Gen.exp01New expOps l; joinSp [f64Hex e.c1, f64Hex e.c2, f64Hex e.c3]
+    | none => "bad-op"
+  -- the same three requests answered by the HAND-WRITTEN transcription (Model/Exp01.lean), which the theorems are stated about
+  | ["exp01h", l, sd, n] => match f64OfHex l, u64OfHex sd, n.toNat? with
+    | some l, some sd, some n =>
+      let e := Exp01.new expOps l
+      (match iterE (fun g => Exp01.sample expOps e unif01 g) n (Xo.seedFromU64 sd) with
+       | .ok xs => joinSp (xs.map f64Hex)
+       | .error er => errWord er)
+    | _, _, _ => "bad-op"
+  -- `exp01s <lambda hex> w1 w2 …` : one sample from a SCRIPTED word stream; answer: sample bits and words consumed
+  | "exp01sh" :: l :: ws => match f64OfHex l, ws.mapM u64OfHex with
+    | some l, some ws =>
+      let e := Exp01.new expOps l
+      let next : List UInt64 → Float × List UInt64 := fun st => match st with
+        | w :: r => (unif01OfU64 w, r)
+        | [] => (0.0, [])
+      (match Exp01.sample expOps e next ws with
+       | .ok (x, rest) => f64Hex x ++ " " ++ toString (ws.length - rest.length)
+       | .error er => errWord er)
+    | _, _ => "bad-op"
+  | ["exp01ch", l] => match f64OfHex l with
+    | some l => let e := Exp01.new expOps l; joinSp [f64Hex e.c1, f64Hex e.c2, f64Hex e.c3]
     | none => "bad-op"
   | ["exp1", sd, n] => match u64OfHex sd, n.toNat? with
     | some sd, some n => (match iterE exp1 n (Xo.seedFromU64 sd) with | .ok xs => joinSp (xs.map f64Hex) | .error er => errWord er)
@@ -442,6 +515,11 @@ def stepSsk (st : DState) : List String → DState × String
       let o : BOps Float := { pow := Float.pow, sqrt := Float.sqrt, max := fun x y => if x < y then y else x, min := fun x y => if y < x then y else x }
       (st, match Gen.jaccardBounds o b j with | .ok (lo, hi) => f64Hex lo ++ " " ++ f64Hex hi | .error e => errWord e)
     | _, _ => (st, "bad-op")
+  | ["boundsh", b, j] => match f64OfHex b, f64OfHex j with      -- hand-written transcription (Model/JaccardBounds.lean)
+    | some b, some j =>
+      let o : BOps Float := { pow := Float.pow, sqrt := Float.sqrt, max := fun x y => if x < y then y else x, min := fun x y => if y < x then y else x }
+      (st, match jaccardBoundsG o b j with | .ok (lo, hi) => f64Hex lo ++ " " ++ f64Hex hi | .error e => errWord e)
+    | _, _ => (st, "bad-op")
   | ["card", n] => match st.ssk[n]? with
     | some s => let (c, r) := s.cardinalStats (Float.log1p (s.b - 1.0)); (st, f64Hex c ++ " " ++ f64Hex r)
     | none => (st, "bad-op")
@@ -493,6 +571,8 @@ def stepDens (st : DState) : List String → DState × String
     | some s => ({ st with dens64 := st.dens64.insert n (s.reinit large64) }, "ok") | none => (st, "bad-op")
   | ["reinit32", n] => match st.dens32[n]? with
     | some s => ({ st with dens32 := st.dens32.insert n (s.reinit large32) }, "ok") | none => (st, "bad-op")
+  | ["u32view64", n] => match st.dens64[n]? with | some s => (st, joinSp (s.u32View.map (fun x => toString x.toNat))) | none => (st, "bad-op")
+  | ["u32view32", n] => match st.dens32[n]? with | some s => (st, joinSp (s.u32View.map (fun x => toString x.toNat))) | none => (st, "bad-op")
   | ["dump64", n] => match st.dens64[n]? with | some s => (st, dumpDens f64Hex s) | none => (st, "bad-op")
   | ["dump32", n] => match st.dens32[n]? with | some s => (st, dumpDens f32Hex s) | none => (st, "bad-op")
   | ["chacha", sd, m, cnt] => match sd.toNat?, m.toNat?, cnt.toNat? with
@@ -509,6 +589,9 @@ def stepOrd (st : DState) : List String → DState × String
   | ["new", n, m, l, sd] => match m.toNat?, l.toNat?, u64OfHex sd with
     | some m, some l, some sd => (match (OrdMH.new f64Max m l sd : Except Err (OrdMH Float)) with
       | .ok s => ({ st with ord := st.ord.insert n s }, "ok") | .error e => (st, errWord e))
+    | _, _, _ => (st, "bad-op")
+  | "sig" :: n :: wy :: hs => match st.ord[n]?, u64OfHex wy, hs.mapM u64OfHex with   -- after `set` with the same hashes
+    | some s, some wy, some hs => (st, joinSp ((s.signature hs wy).map (fun x => toString x.toNat)))
     | _, _, _ => (st, "bad-op")
   | "set" :: n :: hs => match st.ord[n]?, hs.mapM u64OfHex with
     | some s, some hs => (match s.hashSet ordOps f64Max hs with
@@ -535,6 +618,7 @@ def step (st : DState) (line : String) : DState × String :=
   | "ord" :: rest => stepOrd st rest
   | "pmh2" :: rest => stepPmh2 st rest
   | "rnd" :: rest => (st, stepExp rest)
+  | "hash" :: rest => (st, stepHash rest)
   | _ => (st, "bad-op")
 
 partial def loop (h : IO.FS.Stream) (out : IO.FS.Stream) (st : DState) : IO Unit := do
